@@ -728,7 +728,7 @@ fn query_to_set_expr(query: sql_ast::Query, context: &mut Context) -> Box<SetExp
                     lateral: false,
                     subquery: Box::new(query),
                     alias: Some(simple_table_alias(sql_ast::Ident::new(
-                        context.anchor.table_name.gen(),
+                        context.anchor.gen_table_name(),
                     ))),
                 },
                 joins: vec![],
